@@ -18,6 +18,7 @@ type Node struct {
 	Code     int               `json:"code,omitempty"`
 	FailN    int               `json:"fail_n,omitempty"` // flaky: number of 500 answers before the 200
 	Header   map[string]string `json:"header,omitempty"`
+	DelayMs  int               `json:"delay_ms,omitempty"` // the server answers that late (virtual time)
 }
 
 // SiteDef is a declared site plus its seeds.
@@ -89,6 +90,11 @@ func (d *SiteDef) Build() Site {
 			p.Script = []Resp{{Err: true}}
 		case "cut": // headers arrive, the connection breaks in the middle of the body
 			p.Script = []Resp{{Status: 200, Header: map[string]string{"Content-Type": "image/png"}, Body: pngMagic + strings.Repeat("\x00", 4096), CutAt: 100}}
+		}
+		if n.DelayMs > 0 {
+			for i := range p.Script {
+				p.Script[i].DelayMs = n.DelayMs
+			}
 		}
 		s[n.URL] = &p
 	}
